@@ -308,3 +308,12 @@ func WatchdogBegin(what string, idx uint64) {
 }
 
 func WatchdogEnd() { wdStart.Store(0) }
+
+// Alive re-arms the watchdog inside a case that makes several long library calls (the large parametric
+// families: a single boolean operation on 2048-vertex star polygons takes ten seconds and more): the limit is
+// per library call, not per case.
+func Alive() {
+	if wdStart.Load() != 0 {
+		wdStart.Store(time.Now().UnixNano())
+	}
+}
